@@ -72,7 +72,11 @@ def observe_union(u, unit):
         enc = bool(np.all(u.contains(allp))) if len(allp) else True
     except Exception:
         enc = False
-    return dict(enclosed=enc)
+    # the volume record of ellipsoid k is the volume of ellipsoid k (log_v_all is a parallel list)
+    lva = np.atleast_1d(u.log_v_all)
+    vols = bool(len(lva) == len(u.bounds) and all(abs(float(lva[k]) - float(u.bounds[k].log_v)) < 1e-9
+                                                  for k in range(len(u.bounds))))
+    return dict(enclosed=enc, volsAligned=vols)
 
 
 OPS = ['SplitT', 'SplitF', 'Trim', 'Sample', 'LogV']
@@ -375,7 +379,7 @@ def walk_object(spec):
         return True
 
     def rec(ev, node):
-        log.append(dict(event=ev, state=project_object(b, idx, v0), obs=dict(enclosed=enclosed()), node=node,
+        log.append(dict(event=ev, state=project_object(b, idx, v0), obs=dict(enclosed=enclosed(), volsAligned=True), node=node,
                         npts=len(idx)))
     try:
         rec(dict(name='Restore'), '-')
@@ -406,7 +410,7 @@ def walk_object(spec):
         log.append(dict(event=dict(name='Raise', op='object', exc=type(e).__name__, msg=str(e)[:200],
                                    tb=traceback.format_exc()[-800:]),
                         state=log[-1]['state'] if log else dict(recs=[], lens=[0, 0, 0, 0], trimmed=[], cache=0, nsamp=0, nrej=0),
-                        obs=dict(enclosed=True), node='raise', npts=len(idx)))
+                        obs=dict(enclosed=True, volsAligned=True), node='raise', npts=len(idx)))
     finally:
         if pool is not None:
             try:
